@@ -116,10 +116,10 @@ pub mod restrictions {
 
     #[derive(Debug, PartialEq, Default)]
     pub struct Restrictions {
-        pub min_inclusive: Option<i32>,
-        pub max_inclusive: Option<i32>,
-        pub min_exclusive: Option<i32>,
-        pub max_exclusive: Option<i32>,
+        pub min_inclusive: Option<i64>,
+        pub max_inclusive: Option<i64>,
+        pub min_exclusive: Option<i64>,
+        pub max_exclusive: Option<i64>,
         pub length: Option<usize>,
         pub min_length: Option<usize>,
         pub max_length: Option<usize>,
